@@ -452,6 +452,54 @@ def _judge_bias_toggled(rng, tag):
     return None
 
 
+def _judge_refit_inside(rng, tag):
+    """the Ridge readout as it is used INSIDE something, fitted a SECOND time on other data (ragged sequences, warm-up): reservoir >> ridge through Model.fit,
+    the ESN convenience node, and a stand-alone Ridge.  After the second fit the readout satisfies the normal equations of the SECOND dataset only (states
+    recomputed independently from the reservoir's matrices) and predicts Wout^T s + b"""
+    import reservoirpy as rpy
+    rpy.verbosity(0)
+    from reservoirpy.nodes import ESN, Reservoir, Ridge
+    rs = np.random.RandomState(rng.randrange(10 ** 6))
+    W, Win = rs.randint(-4, 5, (3, 3)) / 8.0, rs.randint(-4, 5, (3, 2)) / 4.0
+    lam, warm = 0.25, 2
+
+    def data():
+        L = (6, 8)
+        return [rs.randint(-8, 9, (n, 2)) / 4.0 for n in L], [rs.randint(-8, 9, (n, 1)) / 4.0 for n in L]
+
+    def states(x):
+        s, out = np.zeros(3), []
+        for u in x:
+            s = 0.5 * s + 0.5 * np.clip(W @ s + Win @ u, -1, 1)
+            out.append(s.copy())
+        return np.array(out)
+    for how in ("model", "esn", "node"):
+        sc = {"kind": "refit-inside", "how": how, "tag": tag}
+        try:
+            res = Reservoir(3, W=W, Win=Win, bias=np.zeros((3, 1)), lr=0.5, activation=lambda v: np.clip(v, -1, 1), name="ri%s%s_r" % (tag, how))
+            rd = Ridge(ridge=lam, name="ri%s%s_o" % (tag, how))
+            (X1, Y1), (X2, Y2) = data(), data()
+            if how == "model":
+                m = res >> rd
+                m.fit(X1, Y1, warmup=warm, reset=True); m.fit(X2, Y2, warmup=warm, reset=True)
+            elif how == "esn":
+                m = ESN(reservoir=res, readout=rd, name="ri%s_e" % tag)
+                m.fit(X1, Y1, warmup=warm); m.fit(X2, Y2, warmup=warm)
+            else:
+                rd.fit([states(x) for x in X1], Y1, warmup=warm); rd.fit([states(x) for x in X2], Y2, warmup=warm)
+        except Exception as ex:  # noqa: BLE001
+            return _viol("refit-inside:exception", "second fit (%s) raises %r" % (how, ex), sc)
+        S = np.vstack([states(x)[warm:] for x in X2]); T = np.vstack([y[warm:] for y in Y2])
+        Sb = np.hstack([np.ones((len(S), 1)), S])
+        A = Sb.T @ Sb + lam * np.eye(4)
+        wb = np.vstack([np.asarray(rd.bias).reshape(1, -1), np.asarray(rd.Wout)])
+        resid = float(np.max(np.abs(A @ wb - Sb.T @ T)))
+        if resid > 1e-8:
+            return _viol("normal-equations:second-fit:%s" % how, "after a SECOND fit on other data (%s, ragged sequences, warmup=%d) the readout does not satisfy the regularised normal "
+                         "equations of the data it was just fitted on (residual %.3g): sums of the first dataset were kept" % (how, warm, resid), sc, 0.0, resid)
+    return None
+
+
 def oracle(ctx, scale=1):
     rng = ctx.rng("oracle")
     cases = gen_cases(rng, ctx.n(100, 1200) * scale)
@@ -468,6 +516,10 @@ def oracle(ctx, scale=1):
         v = _judge_bias_toggled(rng, "%d_%d" % (ctx.seed, i)) or _judge_copied_between(rng, "%d_%d" % (ctx.seed, i))
         if v:
             out.append(v)
+    for i in range(ctx.n(2, 10)):
+        v = _judge_refit_inside(rng, "%d_%d" % (ctx.seed, i))
+        if v:
+            out.append(v)
     return {"evaluations": len(cases) + ctx.n(10, 100) + ctx.n(3, 20), "violations": out,
             "rule": "run(x) vs the exact-rational optimum's prediction (constant term only with input_bias), exact-rational normal-equation "
                     "residual of the observed Wout/bias, objective values at random and gradient-direction perturbations, Wout^T x + bias "
@@ -476,6 +528,10 @@ def oracle(ctx, scale=1):
 
 
 def replay(payload):
+    if payload.get("scenario", {}).get("kind") == "refit-inside":
+        import random
+        vs = [v for v in (_judge_refit_inside(random.Random(i), "rr%d" % i) for i in range(4)) if v]
+        return {"violates": bool(vs), "detail": vs[:1]}
     if payload.get("scenario", {}).get("kind") == "ridge-reassigned":
         import random
         vs = [v for v in (_judge_ridge_reassigned(random.Random(i), "rq%d" % i) for i in range(20)) if v]
